@@ -226,8 +226,11 @@ def build_derivative(spec, prims):
     kind = spec["kind"]
     ul = prims[spec["underlier"]]
     d = getattr(pfi, kind)(ul, **spec.get("params", {}))
+    made = {}
     for c in spec.get("clauses", []):
-        d.add_clause(c["name"], make_clause(c))
+        fn = made[c["same_callable_as"]] if c.get("same_callable_as") in made else make_clause(c)
+        made[c["name"]] = fn
+        d.add_clause(c["name"], fn)
     if spec.get("listed"):
         d.list(make_pricer(spec["listed"]["pricer"]), cost=spec["listed"].get("cost", 0.0))
     return d
